@@ -28,6 +28,7 @@ import (
 
 	"github.com/paulmach/osm"
 	"verif/harness/wire"
+	"verif/harness/xcodec"
 )
 
 // ---------------------------------------------------------------- codec configurations
@@ -138,7 +139,41 @@ func (g *gen) i64() int64 {
 	}
 	return intPool[g.rng.Intn(len(intPool))]
 }
+
+// fineFloats: float64 values with full mantissas (quotients, binary sums, neighbours of 7-decimal
+// coordinates, sub-1e-7 parts, tile edges; pool shared with the XML harness), restricted to those
+// whose shortest decimal fits the wire format. They travel as exact decimals, so any rounding or
+// re-spelling that changes the value is seen.
+var fineFloats = func() []float64 {
+	var out []float64
+	for _, f := range append([]float64{51.50000004, 4e-8, 51.500000000000004, -0.30000000000000004, 8.5e-9, 179.99999999999997}, xcodec.FineFloats...) {
+		if decimalFits(f) {
+			out = append(out, f)
+		}
+	}
+	return out
+}()
+
+func decimalFits(f float64) (ok bool) {
+	defer func() {
+		if recover() != nil {
+			ok = false
+		}
+	}()
+	floatDec(f)
+	return true
+}
+
 func (g *gen) float() float64 {
+	switch g.rng.Intn(6) {
+	case 0:
+		return fineFloats[g.rng.Intn(len(fineFloats))]
+	case 1:
+		if g.rng.Intn(2) == 0 {
+			return g.rng.Float64()*360 - 180 // 52 random mantissa bits
+		}
+		return (float64(g.rng.Intn(3600000000)-1800000000) + g.rng.Float64()) / 1e7 // 7 decimals plus a sub-1e-7 part
+	}
 	f, err := strconv.ParseFloat(decPool[g.rng.Intn(len(decPool))], 64)
 	if err != nil {
 		panic(err)
@@ -726,6 +761,15 @@ func main() {
 			addRound(2, k, g.element(k), "elem/"+kinds[k], 0)
 			w.Count(fmt.Sprintf("density:%.1f", g.p))
 		}
+	}
+	// 1z. every float64 field of every record of every kind (node/note/member/way-node/update/bounds/
+	//     changeset/user.home coordinates) holds a full-mantissa value: must come back bit-exact
+	for k := range kinds {
+		g := &gen{rng: rng, p: 1, annot: true}
+		e := g.element(k)
+		n := 0
+		setFineFloats(reflect.ValueOf(e).Elem(), &n)
+		addRound(2, k, e, "elem-fine-floats/"+kinds[k], 0)
 	}
 	// 1a. nested records, one optional part at a time: for every record type reachable inside an
 	//     element (members, their way nodes, way nodes, tags, updates, bounds, discussion and its
@@ -1330,4 +1374,32 @@ func (g *gen) fillNonZero(v reflect.Value) {
 		}
 	}
 	panic("c05 harness: no non-zero value for " + v.Type().String())
+}
+
+// setFineFloats overwrites every float64 reachable in v with successive full-mantissa values.
+func setFineFloats(v reflect.Value, n *int) {
+	switch v.Kind() {
+	case reflect.Float64:
+		if v.CanSet() {
+			v.SetFloat(fineFloats[*n%len(fineFloats)])
+			*n++
+		}
+	case reflect.Ptr:
+		if !v.IsNil() {
+			setFineFloats(v.Elem(), n)
+		}
+	case reflect.Slice:
+		for i := 0; i < v.Len(); i++ {
+			setFineFloats(v.Index(i), n)
+		}
+	case reflect.Struct:
+		if leafType(v.Type()) {
+			return
+		}
+		for i := 0; i < v.NumField(); i++ {
+			if v.Type().Field(i).PkgPath == "" {
+				setFineFloats(v.Field(i), n)
+			}
+		}
+	}
 }
